@@ -13,6 +13,7 @@ Binding: every cell <operation, scripted server behaviour, observer
         output go to TLC.
 """
 import base64
+import datetime as _dt
 import io
 import logging
 import os
@@ -252,6 +253,38 @@ OPS = {
         "VT_Thing", MaxObjectCount=10)),
     "InvokeMethod": lambda c: c.InvokeMethod(
         "DoIt", CIMClassName("VT_Thing", namespace=NS), InText=MULTI),
+    # argument shapes of InvokeMethod: every way a value may be typed
+    "InvokeMethod.dt": lambda c: c.InvokeMethod(
+        "DoIt", CIMClassName("VT_Thing", namespace=NS),
+        [("When", _dt.datetime(2020, 1, 2, 3, 4, 5)),
+         ("Dur", _dt.timedelta(seconds=5))],
+        At=pywbem.CIMDateTime("20200101120000.000000+060")),
+    "InvokeMethod.types": lambda c: c.InvokeMethod(
+        "DoIt", IPATH,
+        [("C", pywbem.Char16("x")), ("R", pywbem.Real32(1.5)),
+         pywbem.CIMParameter("A", "uint8", is_array=True,
+                             value=[pywbem.Uint8(1), pywbem.Uint8(2)]),
+         ("Ref", IPATH), ("Emb", CIMInstance("VT_Thing", properties=[
+             CIMProperty("k", Uint32(3))]))], B=True, SA=["a", MULTI]),
+    # CIM parameter names that are also names used inside pywbem
+    "InvokeMethod.names": lambda c: c.InvokeMethod(
+        "DoIt", CIMClassName("VT_Thing", namespace=NS),
+        [("MethodName", "a"), ("ObjectName", "b"), ("Params", "c"),
+         ("method", "d")],
+        methodname="e", objectname="f", namespace="g",
+        params="i", exc="j", ret="k", name="l", kwargs="m"),
+    "InvokeMethod.kwmethod": lambda c: c.InvokeMethod(
+        "DoIt", CIMClassName("VT_Thing", namespace=NS), method="d"),
+    # operations that fail locally, before anything is sent
+    "PullInstancesWithPath.badctx": lambda c: c.PullInstancesWithPath(
+        None, MaxObjectCount=10),
+    "PullInstancePaths.badctx": lambda c: c.PullInstancePaths(
+        ("ctx-1",), MaxObjectCount=10),
+    "PullInstances.badctx": lambda c: c.PullInstances(None,
+                                                      MaxObjectCount=10),
+    "CloseEnumeration.badctx": lambda c: c.CloseEnumeration(None),
+    "OpenEnumerateInstances.badmax": lambda c: c.OpenEnumerateInstances(
+        "VT_Thing", MaxObjectCount=-1),
 }
 
 
@@ -369,11 +402,12 @@ def run_cell_history(ctx, cfg, cells, workdir, idx):
     try:
         for op, rclass in cells:
             bare_conn, bare_ad = new_conn(False)
-            bare_ad.script = Script(op, rclass)
+            base = op.split(".")[0]
+            bare_ad.script = Script(base, rclass)
             bare = outcome_of(OPS[op], bare_conn)
-            ob.ad.script = Script(op, rclass)
+            ob.ad.script = Script(base, rclass)
             obs = outcome_of(OPS[op], ob.conn)
-            statop = WIRE_NAME.get(op, op)     # name the statistics use
+            statop = WIRE_NAME.get(base, base)  # name the statistics use
             cnt, exc_cnt = stat_snapshot(ob.conn, statop) if cfg["stats"] \
                 else (0, 0)
             ev = dict(op=statop, stats=cfg["stats"], bare=bare, obs=obs,
@@ -431,9 +465,12 @@ def cfg_space(rng, quick):
 
 
 def signature(ev, inf, clauses):
-    return "%s:%s:%s" % (
+    sig = "%s:%s:%s" % (
         "+".join(sorted(clauses)), inf["response"],
         ev["obs"]["cls"] if ev["obs"] != ev["bare"] else "same")
+    if "." in inf["op"]:          # argument-shape variants name themselves
+        sig += ":" + inf["op"]
+    return sig
 
 
 def cut_offsets():
@@ -481,6 +518,10 @@ def run(ctx):
             cells = [(ctx.rng.choice(ops), r) for r in RESPONSES]
             cells += [(ctx.rng.choice(ops), ctx.rng.choice(RESPONSES))
                       for _ in range(3)]
+            # every argument-shape variant with a success and a CIM error
+            var = [o for o in ops if "." in o]
+            cells += [(o, ctx.rng.choice(["ok_ascii", "cimerror"]))
+                      for o in var]
         else:
             cells = [(o, r) for o in ops for r in RESPONSES]
         ctx.rng.shuffle(cells)
